@@ -43,6 +43,7 @@ pub fn opts(which: Which) -> Opts {
             o.max_depth = 3;
             o.ragged_pct = 55;
             o.blank_lines = true;
+            o.multiline_tag_pct = 15;
         }
         Which::C13 => {
             o.unwrap_pct = 0;
@@ -90,6 +91,9 @@ fn prepare(c: &AstCase, obs: &mut Obs, use_kf1: bool, which: Which) -> Result<Op
     if refmodel::ref_tags(&r.src, &c.spell.ds, &c.spell.de).len() != 2 * r.elems.len() {
         obs.excluded("rendering-does-not-tokenize-as-intended");
         return Ok(None);
+    }
+    if r.elems.iter().enumerate().any(|(i, e)| e.open_first_line != e.open_line && tr.decisions[i] == Decision::Ready) {
+        obs.class("ready-element-with-multi-line-opening-tag");
     }
     let lt = line_truth(&r, &tr);
     let mut kf1_line = None;
@@ -253,10 +257,10 @@ pub fn oracle_c12(c: &AstCase, obs: &mut Obs, kf1: bool, counted: bool) -> Verdi
         if depth2 {
             obs.class("unwrap-nesting-depth>=2");
         }
-        if lt.unwrapped.iter().any(|&i| r.elems[i].open_line == 0) {
+        if lt.unwrapped.iter().any(|&i| r.elems[i].open_first_line == 0) {
             obs.class("block-on-line-1");
         }
-        if lt.unwrapped.iter().any(|&i| r.elems[i].open_line == 1 && r.src.starts_with('\n')) {
+        if lt.unwrapped.iter().any(|&i| r.elems[i].open_first_line == 1 && r.src.starts_with('\n')) {
             obs.class("block-after-empty-first-line");
         }
         if c.doc.unit == "\t" {
@@ -631,6 +635,7 @@ pub fn check(ctx: &mut Ctx, id: &'static str) {
             ctx.random("ast-documents", 400, 800_000, 30_000_000, |t| gen(t, which), |c, obs| oracle_c12(c, obs, kf1, false));
             ctx.reshrink::<AstCase, _, _>("ast-documents", |c, obs| oracle_c12(c, obs, kf1, false), crate::props::clean::shrink_ast);
             let kf7 = ctx.is_known("inline-removal-at-line-start-below-blank-line");
+            ctx.require_class("ready-element-with-multi-line-opening-tag");
             ctx.require_class("body-line-begins-with-inline-removal");
             ctx.require_class("unwrapped-body-with-inline-elements");
             ctx.random("inline-in-bodies", 400, 400_000, 20_000_000, gen_c12_mixed, |c, obs| oracle_c12_mixed(c, obs, kf1, kf7));
@@ -800,7 +805,7 @@ pub fn oracle_c12_mixed(c: &AstCase, obs: &mut Obs, kf1: bool, kf7: bool) -> Ver
             if gone {
                 continue;
             }
-            let t = lead(src_line(e.open_line));
+            let t = lead(src_line(e.open_first_line));
             if e.close_line - e.open_line - 1 <= 2 {
                 continue; // no inner line
             }
